@@ -241,7 +241,7 @@ func runC06(tier string) int {
 	r.Assume("names are <owner>_Text_<n> / <owner>_Movement_<n>, n counting the owner's new contents in source order of first appearance; content of a moves() is its written, expanded step list",
 		"identical content = identical text after terminator and format() processing and identical string type")
 	return r.Finish(r.Get("evaluations"), r.Get("nontrivial"),
-		"every file with N inline arguments distributed over 3 owners (two scripts and an inline map script, <= 3 each; in odd rotations the map script's first argument sits in a table entry written before the plain inline script) x every assignment of 25 datum kinds (contents ending in terminator characters, plain / already-terminated / formatted / other text, ascii, braille and custom types incl. typed texts whose final literal equals a plain one, one literal under six format() parameter sets of which two give the same result, 9 moves() spellings incl. lists that differ only in the length of their last run or whose run-length spelling collides with another step name) x context rotations over 13 contexts (statement, if, while, switch case, AutoVar condition, selected poryswitch case, '_' case after an unselected one, do-while condition, AutoVar leaf in a parenthesised / negated group followed by an operator, elif condition, AutoVar switch operand, second of two inline data in one command) x {no user name, a user text, a user movement named like a generated label of the first script or of the inline map script, before or after the scripts (rotating), a user text / movement whose name is near a generated label without being one (zero-padded, other case, hex)}, every file defining constants named like the text contents and movement steps and holding explicit text / movement statements (local and exported) with the very contents of its inline arguments; plus long files with K pairwise different inline arguments for every K up to the bound in the coverage (5 text/movement patterns x 3 owner splits x 2 context rotations); plus one script with a moves() list of 41 steps for every 2-character (thorough: and 3-character) ending of its last step name over [a-z0-9_], each of which must get a block of its own; plus prepared pairs of different strings with equal digests under FNV-1 / FNV-1a 64 and small-base polynomial hashes as inline texts and steps of one script; plus conditions of three operands (flag tests and AutoVar commands with an inline text or moves()) under every operator pair and grouping in 4 positions: labels numbered left to right; plus one script with 200,000 (thorough 600,000) different inline texts; non-trivial = some content is shared between two arguments")
+		"every file with N inline arguments distributed over 3 owners (two scripts and an inline map script, <= 3 each; in odd rotations the map script's first argument sits in a table entry written before the plain inline script) x every assignment of 25 datum kinds (contents ending in terminator characters, plain / already-terminated / formatted / other text, ascii, braille and custom types incl. typed texts whose final literal equals a plain one, one literal under six format() parameter sets of which two give the same result, 9 moves() spellings incl. lists that differ only in the length of their last run or whose run-length spelling collides with another step name) x context rotations over 13 contexts (statement, if, while, switch case, AutoVar condition, selected poryswitch case, '_' case after an unselected one, do-while condition, AutoVar leaf in a parenthesised / negated group followed by an operator, elif condition, AutoVar switch operand, second of two inline data in one command) x {no user name, a user text, a user movement named like a generated label of the first script or of the inline map script, before or after the scripts (rotating), a user text / movement whose name is near a generated label without being one (zero-padded, other case, hex)}, every file defining constants named like the text contents and movement steps and holding explicit text / movement statements (local and exported) with the very contents of its inline arguments; plus long files with K pairwise different inline arguments for every K up to the bound in the coverage (5 text/movement patterns x 3 owner splits x 2 context rotations); plus one script with a moves() list of 41 steps for every 2-character (thorough: and 3-character) ending of its last step name over [a-z0-9_], each of which must get a block of its own; plus prepared pairs of different strings with equal digests under FNV-1 / FNV-1a 64 and small-base polynomial hashes as inline texts and steps of one script; plus conditions of three operands (flag tests and AutoVar commands with an inline text or moves()) under every operator pair and grouping in 4 positions: labels numbered left to right; plus pair-data files: every ordered pair of 24 inline arguments with near-equal dedupe keys (string types differing only in letter case, written-out terminators, step lists whose name+count spellings coincide, a multiplier of 1) in two scripts - each label holds what the argument holds compiled alone, labels equal iff contents equal; plus one script with 200,000 (thorough 600,000) different inline texts; non-trivial = some content is shared between two arguments")
 }
 
 func c06Eval(r *harness.Run, data []datum, dist []int, rot, clash int) {
